@@ -28,6 +28,7 @@ import (
 const vschedPath = "github.com/TeaEntityLab/fpGo/v2/zzverif/vsched"
 const vsyncPath = "github.com/TeaEntityLab/fpGo/v2/zzverif/sync"
 const vatomicPath = "github.com/TeaEntityLab/fpGo/v2/zzverif/atomic"
+const vcontextPath = "github.com/TeaEntityLab/fpGo/v2/zzverif/context"
 
 var timeFuncs = map[string]bool{"Sleep": true, "After": true, "Now": true, "Since": true, "Until": true, "NewTimer": true,
 	"NewTicker": true, "AfterFunc": true, "Tick": true, "Timer": true, "Ticker": true}
@@ -150,7 +151,7 @@ type ctx struct {
 
 func (r *rw) run() {
 	r.recv2 = map[ast.Expr]bool{}
-	timeName := ""
+	timeName, runtimeName := "", ""
 	for _, im := range r.file.Imports {
 		p, _ := strconv.Unquote(im.Path.Value)
 		switch p {
@@ -164,10 +165,24 @@ func (r *rw) run() {
 			if im.Name == nil {
 				im.Name = ast.NewIdent("atomic")
 			}
+		case "context":
+			// (scheduled code only: cancellation channels and deadlines the scheduler knows; the sync-only mode
+			// keeps the real context package, whose timers run on the real clock like everything else there)
+			if !r.onlySync {
+				im.Path.Value = strconv.Quote(vcontextPath)
+				if im.Name == nil {
+					im.Name = ast.NewIdent("context")
+				}
+			}
 		case "time":
 			timeName = "time"
 			if im.Name != nil {
 				timeName = im.Name.Name
+			}
+		case "runtime":
+			runtimeName = "runtime"
+			if im.Name != nil {
+				runtimeName = im.Name.Name
 			}
 		}
 	}
@@ -181,6 +196,11 @@ func (r *rw) run() {
 		// keep the import used
 		r.file.Decls = append(r.file.Decls, &ast.GenDecl{Tok: token.VAR, Specs: []ast.Spec{&ast.ValueSpec{Names: []*ast.Ident{ast.NewIdent("_")},
 			Type: &ast.SelectorExpr{X: ast.NewIdent(timeName), Sel: ast.NewIdent("Duration")}}}})
+	}
+	if runtimeName != "" && runtimeName != "_" && runtimeName != "." {
+		// keep the import used (runtime.Gosched calls were redirected)
+		r.file.Decls = append(r.file.Decls, &ast.GenDecl{Tok: token.VAR, Specs: []ast.Spec{&ast.ValueSpec{Names: []*ast.Ident{ast.NewIdent("_")},
+			Values: []ast.Expr{&ast.SelectorExpr{X: ast.NewIdent(runtimeName), Sel: ast.NewIdent("NumCPU")}}}}})
 	}
 	if len(r.sites) > 0 {
 		// var _vsites_<tag> = vsched.RegisterSites([]vsched.Site{{Pos: "...", Field: "..."}, ...})
@@ -449,6 +469,12 @@ func (r *rw) rewrite(n ast.Node, c ctx) ast.Node {
 					r.need = true
 					r.nsync++
 					return &ast.SelectorExpr{X: ast.NewIdent("vsched"), Sel: n.Sel}
+				}
+				if pn.Imported().Path() == "runtime" && n.Sel.Name == "Gosched" {
+					// a spin loop that yields with runtime.Gosched yields to the controlled scheduler
+					r.need = true
+					r.nsync++
+					return &ast.SelectorExpr{X: ast.NewIdent("vsched"), Sel: ast.NewIdent("Gosched")}
 				}
 				return n
 			}
